@@ -192,6 +192,12 @@ def apply_known(kf, ob, v, rec, ctx, budget):
     return v, rec
 
 
+def want_smt_budget(out, cap=6):
+    """thorough tier: keep the SMT-LIB text of a few solver-discharged obligations per task for the agreement sample"""
+    n = sum(1 for o in out['obligations'] if o.get('smt2') and o['status'] == 'proved')
+    return n < cap
+
+
 def run_task(task):
     """task = (contract name, receiver or None, case assignment, labels, budget_s, want_smt)"""
     cname, recv, assign, labels, budget, want_smt, known = task
@@ -225,7 +231,7 @@ def run_task(task):
                 if v.status == 'refuted':
                     rec['model'] = model_to_dict(v.model, pr.leaves, getattr(pr, 'ctx', None))
                     rec['model_extra'] = extra_model(v.model, getattr(pr, 'ctx', None))
-                if v.status != 'proved' or want_smt:
+                if v.status != 'proved' or (want_smt and v.backend != 'z3api-incremental' and want_smt_budget(out)):
                     try:
                         rec['smt2'] = SV._smt2(ob.hyps, ob.goal)[:20000]
                     except Exception:
